@@ -84,6 +84,14 @@ def main():
     ctx = Ctx(prop, interp, tier, seed)
     status = 'ok'
     message = ''
+    import signal as _signal
+    limit = int(os.environ.get('PYVC_WALL_LIMIT_S', '780' if tier == 'quick' else '5400'))
+
+    def _on_alarm(signum, frame):
+        raise Unsupported(f'wall-clock limit of {limit} s for the {tier} tier reached (obligation generation or '
+                          f'discharge did not finish)')
+    _signal.signal(_signal.SIGALRM, _on_alarm)
+    _signal.alarm(limit)
     try:
         bad = scan_forbidden(src_root)
         if bad:
@@ -93,6 +101,7 @@ def main():
         ctx.discharge_all()
         ctx.notes.append(f'phases: generation {t_run:.1f}s, discharge {time.time() - t0 - t_run:.1f}s')
     except FrameViolation as e:
+        _signal.alarm(0)
         status, message = 'undecided', f'frame: {e} (outside a contract that could attribute it)'
     except Unsupported as e:
         status, message = 'undecided', f'unsupported construct / drift: {e}'
@@ -101,6 +110,7 @@ def main():
     except Exception as e:   # checker crash: never a verdict about the code
         status, message = 'crash', f'{type(e).__name__}: {e}'
         traceback.print_exc()
+    _signal.alarm(0)
     wall = time.time() - t0
 
     from pyvc import report
